@@ -36,6 +36,10 @@ fn cell_cfg(c: &Cell) -> Cfg {
     let mut cfg = Cfg::basic(c.role, c.ver, c.as_client);
     cfg.wire_v = c.wire_v;
     cfg.ka = 0;
+    // with automatic responses on, "acted upon" is visible in the event list
+    if c.role == Role::Any {
+        cfg.auto_ping = true;
+    }
     match c.flag {
         Flag::Persistent => {
             if c.wire_v == 5 {
